@@ -142,7 +142,8 @@ func c20Program(c *C20Case) (prog string, input string, expect string) {
 		if c.Shape == "mixed" && depth%2 == 1 {
 			// innermost is an array: fine, may be empty
 		}
-		return "BEGIN { print \"pre\" } { x = 1 } END { print \"done\" }", open + close, "NEST"
+		// the accepted document is also used: printed in full (BEGINFILE sees the whole value)
+		return "BEGIN { print \"pre\" } BEGINFILE { print $ } { x = 1 } END { print \"done\" }", open + close, "NEST"
 	}
 	panic("c20Program: unknown case")
 }
@@ -214,8 +215,10 @@ func c20Run(c *C20Case) c20Result {
 				return c20Result{Msg: fmt.Sprintf("%s: accepted, but the padded output has %d bytes", desc, len(lines[0]))}
 			}
 		case "NEST":
-			if rest != "done\n" {
-				return c20Result{Msg: fmt.Sprintf("%s: accepted, but the output is %q", desc, clip(rest))}
+			// (print writes a space after the colon of a member; the documents have none)
+			want := strings.ReplaceAll(strings.ReplaceAll(input, "\"a\":", "\"a\": "), "\"k\":", "\"k\": ") + "\ndone\n"
+			if rest != want {
+				return c20Result{Msg: fmt.Sprintf("%s: accepted, but the document is not printed in full: %d bytes, want %d; first difference at byte %d", desc, len(rest), len(want), firstDiff(rest, want))}
 			}
 		default:
 			if rest != expect+"\n" {
